@@ -41,7 +41,11 @@ class _LoadAndSave:
 
     def __enter__(self):
         self._collection._thread_lock.__enter__()
-        self._collection._load()
+        try:
+            self._collection._load()
+        except BaseException:
+            self._collection._thread_lock.__exit__(None, None, None)
+            raise
 
     def __exit__(self, exc_type, exc_val, exc_tb):
         try:
